@@ -102,6 +102,12 @@ def check_layout(ctx, case):
     else:
         M.save_mesh_as_precomputed(bio, v, t)
         data = bio.getvalue()
+    # the same arrays are written a second time (a mesh saved under two
+    # names): same bytes, and the arrays are as they were
+    bio2 = io.BytesIO()
+    M.save_mesh_as_precomputed(bio2, v, t)
+    if bio2.getvalue() != data:
+        ctx.fail("writing the same arrays a second time gives other bytes")
     try:
         n, pv, pt = mesh_spec.parse(data)
     except mesh_spec.MeshSpecError as exc:
